@@ -8,6 +8,7 @@ import (
 	"encoding/json"
 	"fmt"
 	"math/rand"
+	"strings"
 	"testing"
 
 	"github.com/hyperjumptech/grule-rule-engine/ast"
@@ -188,5 +189,45 @@ func TestReplaySearchJSONDescription(t *testing.T) {
 				t.Fatalf("CONFIRMED: description of the JSON rule does not come back equal: JSON %q, built rule %q\nGRL: %s", desc, re.RuleDescription, grl)
 			}
 		}
+	}
+}
+
+// "Any time a condition object is expected by the parser, the user can choose to instead provide a constant string or numeric
+// value which will be interpreted ... as raw input" (docs/en/GRL_JSON_en.md): raw operands under every operator, also and / or
+// (its own harness: it demonstrates an open finding and must not mask the searches above)
+func TestReplaySearchJSONRawOperands(t *testing.T) {
+	var bad []string
+	for _, op := range []string{"and", "or", "eq", "not", "gt", "gte", "lt", "lte"} {
+		var when map[string]interface{}
+		want := false
+		f := replayC18Fact{A: 3, B: 1, Flag: true}
+		switch op {
+		case "and":
+			when, want = map[string]interface{}{op: []interface{}{"F.A > 1", map[string]interface{}{"eq": []interface{}{"F.B", float64(1)}}}}, true
+		case "or":
+			when, want = map[string]interface{}{op: []interface{}{"F.A > 5", map[string]interface{}{"eq": []interface{}{"F.B", float64(1)}}}}, true
+		case "eq":
+			when, want = map[string]interface{}{op: []interface{}{"F.A", float64(3)}}, true
+		case "not":
+			when, want = map[string]interface{}{op: []interface{}{"F.A", float64(4)}}, true
+		case "gt":
+			when, want = map[string]interface{}{op: []interface{}{"F.A", "F.B"}}, true
+		case "gte":
+			when, want = map[string]interface{}{op: []interface{}{"F.A", float64(3)}}, true
+		case "lt":
+			when, want = map[string]interface{}{op: []interface{}{"F.B", "F.A"}}, true
+		default:
+			when, want = map[string]interface{}{op: []interface{}{float64(1), "F.B"}}, true
+		}
+		rule := map[string]interface{}{"name": "R", "desc": "d", "salience": 3, "when": when,
+			"then": []interface{}{map[string]interface{}{"set": []interface{}{map[string]interface{}{"obj": "F.Fired"}, map[string]interface{}{"const": true}}}, `Retract("R")`}}
+		got, _, err := replayC18Run(rule, f)
+		if err != nil || got.Fired != want {
+			js, _ := json.Marshal(when)
+			bad = append(bad, fmt.Sprintf("%s (err=%v fired=%v)", js, err, got.Fired))
+		}
+	}
+	if len(bad) > 0 {
+		t.Fatalf("CONFIRMED: %d condition(s) with documented raw (plain string / number) operands are not translated with the same meaning: %s", len(bad), strings.Join(bad, " ; "))
 	}
 }
